@@ -177,17 +177,36 @@ func (f *FuncCFG) nodeBlocked(n ast.Node, o *searchOpts) bool {
 	if o == nil || o.AvoidNode == nil {
 		return false
 	}
+	// go/cfg keeps `a && b` / `a || b` as one condition node: what sits in a right operand is evaluated
+	// only when the left operand lets it, so a match there does not block the path (some execution of
+	// this node does not pass it)
 	hit := false
-	inspectNoLit(n, func(c ast.Node) bool {
-		if hit {
-			return false
+	var visit func(c ast.Node, conditional bool)
+	visit = func(c ast.Node, conditional bool) {
+		if c == nil || hit {
+			return
 		}
-		if o.AvoidNode(c) {
+		if _, isLit := c.(*ast.FuncLit); isLit && c != n {
+			return
+		}
+		if !conditional && o.AvoidNode(c) {
 			hit = true
-			return false
+			return
 		}
-		return true
-	})
+		if be, ok := c.(*ast.BinaryExpr); ok && (be.Op == token.LAND || be.Op == token.LOR) {
+			visit(be.X, conditional)
+			visit(be.Y, true)
+			return
+		}
+		ast.Inspect(c, func(m ast.Node) bool {
+			if m == nil || m == c || hit {
+				return m == c
+			}
+			visit(m, conditional)
+			return false
+		})
+	}
+	visit(n, false)
 	return hit
 }
 
